@@ -334,6 +334,7 @@ impl<T> Worker<T> {
     /// This will fail if the queue is full, in which case the item is returned
     /// as the error field.
     pub fn push(&self, item: T) -> Result<(), T> {
+        let _vsim_guard = vstd::sim::OverlapGuard::enter(Arc::as_ptr(&self.queue) as *const () as usize, "cause.st3.overlapping-push"); // vsim hook
         let stealer_head = unpack(self.queue.heads.load(Acquire)).1;
         let tail = self.queue.tail.load(Relaxed);
 
@@ -574,6 +575,7 @@ impl<T> Stealer<T> {
     where
         C: FnMut(usize) -> usize,
     {
+        let _vsim_guard = vstd::sim::OverlapGuard::enter(Arc::as_ptr(&dest.queue) as *const () as usize, "cause.st3.overlapping-push"); // vsim hook: steal writes the destination like a push
         // Compute the free capacity of the destination queue.
         //
         // Ordering: see `Worker::push()` method.
@@ -619,6 +621,7 @@ impl<T> Stealer<T> {
             match res {
                 Ok(_) => {
                     vstd::sim::aux("worker.steal", Arc::as_ptr(&self.queue) as *const () as usize, Arc::as_ptr(&dest.queue) as *const () as usize, transfer_count as usize); // vsim hook
+                    if core::any::type_name::<T>().contains("coroutine::") { vstd::sim::count("cause.sched.coroutine-moved"); } // vsim hook: a coroutine moved to another scheduler
                     return Ok(transfer_count as usize);
                 }
                 Err(h) => {
